@@ -6,6 +6,7 @@
    Definitions only.  Names are taken as already normalised. *)
 From Coq Require Import ZArith List Bool String.
 From DD Require Import Common Mir GenErr Layout FieldSetGen Case.
+From DD Require Addr.
 Import ListNotations.
 Open Scope string_scope.
 Open Scope Z_scope.
@@ -24,8 +25,26 @@ Fixpoint find_block (fuel : nat) (name : string) (objs : list object) : option (
        end) objs
   end.
 
-(* names of the block structs emitted for a list of objects (collect_into_blocks / get_method);
-   fuel bounds ref re-entry (a block ref inside its own target never terminates: C14/D11) *)
+(* BEFORE /repo's repair of D9: names of the block structs emitted for a list of objects (collect_into_blocks /
+   get_method); a block ref re-entered collect_into_blocks for the cloned target, so the target's struct (and those of
+   its sub blocks) were emitted a second time.  Kept for the historical theorem C19_block_ref_historical. *)
+Fixpoint block_structs_before_repair (fuel : nat) (all : list object) (objs : list object) : list string :=
+  match fuel with
+  | O => []
+  | S f =>
+    flat_map (fun o =>
+      match o with
+      | OBlock _ n _ _ inner => n :: block_structs_before_repair f all inner
+      | ORef _ _ (OvBlock target _ _) =>
+        match find_block (S (List.length all)) target all with
+        | Some inner => target :: block_structs_before_repair f all inner
+        | None => []
+        end
+      | _ => []
+      end) objs
+  end.
+
+(* SINCE the repair: a block ref only gets an accessor; block structs come from declared blocks alone *)
 Fixpoint block_structs (fuel : nat) (all : list object) (objs : list object) : list string :=
   match fuel with
   | O => []
@@ -33,11 +52,6 @@ Fixpoint block_structs (fuel : nat) (all : list object) (objs : list object) : l
     flat_map (fun o =>
       match o with
       | OBlock _ n _ _ inner => n :: block_structs f all inner
-      | ORef _ _ (OvBlock target _ _) =>
-        match find_block (S (List.length all)) target all with
-        | Some inner => target :: block_structs f all inner
-        | None => []
-        end
       | _ => []
       end) objs
   end.
@@ -200,13 +214,80 @@ Definition emitted_identifiers (driver : string) (d : device) : list string :=
 Definition keyword_free (driver : string) (d : device) : bool :=
   forallb (fun s => negb (is_keyword s)) (emitted_identifiers driver d).
 
+(* ---- literals of the emitted address arithmetic (D22) ----
+   Every accessor computes `self.base_address + ADDR (+|-) index as IT * |STRIDE|` in the INTERNAL address type IT
+   (find_best_internal_address: sized for the FINAL addresses only), ADDR and |STRIDE| written as unsuffixed literals;
+   read_all_registers writes, per readable register and index, `ADDR (+|-) IDX * |STRIDE|` — typed in the register
+   address type in the root block and in IT (`(self.base_address + ..) as AT`) elsewhere.  rustc rejects a negative
+   literal of an unsigned type (E0277 `Neg` / E0600), a literal outside its type (deny lint overflowing_literals) and a
+   constant product that overflows (deny lint arithmetic_overflow).  The lowered methods are Addr.v's. *)
+Definition method_literals (m : Addr.lmethod) : list Z :=
+  Addr.m_address m :: match Addr.m_repeat m with Some r => [Z.abs (r_stride r)] | None => [] end.
+
+Definition accessor_literals (driver : string) (d : device) : list Z :=
+  match Addr.lower true (S (S (Addr.objects_size (d_objects d)))) driver (d_objects d) with
+  | Ok bls => flat_map (fun b => flat_map method_literals (Addr.b_methods b)) bls
+  | Fail _ => []
+  end.
+
+Definition effective_reg (all : list object) (o : object) : option (access * Z * option repeat) :=
+  match o with
+  | ORegister r => Some (rg_access r, rg_address r, rg_repeat r)
+  | ORef _ _ (OvRegister target acc addr _ _ rep) =>
+    match find (fun x => match x with ORegister r => String.eqb (rg_name r) target | _ => false end) (preorder_objects all) with
+    | Some (ORegister r) => Some (match acc with Some a => a | None => rg_access r end,
+                                  match addr with Some a => a | None => rg_address r end,
+                                  match rep with Some x => Some x | None => rg_repeat r end)
+    | _ => None
+    end
+  | _ => None
+  end.
+
+Definition read_all_literals (all : list object) (o : object) : list Z :=
+  match effective_reg all o with
+  | Some (acc, addr, rep) =>
+    if readable acc then
+      match rep with
+      | None => [addr; 0]
+      | Some r => if r_count r <=? 0 then []
+                  else [addr; Z.abs (r_stride r); r_count r - 1; (r_count r - 1) * Z.abs (r_stride r)]
+      end
+    else []
+  | None => []
+  end.
+
+(* every literal with the type of its position *)
+Definition typed_literals (driver : string) (d : device) : list (ity * Z) :=
+  match Addr.internal_type d with
+  | Fail _ => []                                   (* the generator panics instead (D3c) *)
+  | Ok it =>
+    (map (pair it) (accessor_literals driver d) ++
+     (match g_register_address_type (d_config d) with
+      | Some at_ => map (pair (integer_ity at_)) (flat_map (read_all_literals (d_objects d)) (d_objects d))
+      | None => []
+      end) ++
+     flat_map (fun o => match o with
+                        | OBlock _ _ _ _ inner => map (pair it) (flat_map (read_all_literals (d_objects d)) inner)
+                        | _ => []
+                        end) (preorder_objects (d_objects d)))%list
+  end.
+
+(* a type error (E0277 `Neg` / E0600): a negative literal of an unsigned type *)
+Definition address_literals_sign_ok (driver : string) (d : device) : bool :=
+  forallb (fun p => signed (fst p) || (0 <=? snd p)) (typed_literals driver d).
+(* deny-by-default lints (overflowing_literals, arithmetic_overflow): rustc reaches them only when nothing else is wrong *)
+Definition address_literals_range_ok (driver : string) (d : device) : bool :=
+  forallb (fun p => in_range (fst p) (snd p) || (negb (signed (fst p)) && (snd p <? 0))) (typed_literals driver d).
+Definition address_literals_ok (driver : string) (d : device) : bool :=
+  address_literals_sign_ok driver d && address_literals_range_ok driver d.
+
 (* Since /repo's repair of D8 read_all_registers emits `ADDR - IDX * |STRIDE|` for negative strides, so the stride
    literal is always non-negative; [read_all_strides_ok] (the obligation the unrepaired emitter failed) is kept for
    the historical theorem only and is no longer part of wf_output. *)
 Definition wf_output (driver : string) (d : device) : bool :=
   nodup_str (toplevel_type_names driver d) && nodup_str (field_set_type_names d) &&
   debug_refs_resolve d && forallb enum_literals_ok (enums_of d) &&
-  namespaces_ok driver d && keyword_free driver d.
+  namespaces_ok driver d && keyword_free driver d && address_literals_ok driver d.
 
 (* the structural classes outside which the obligations are proved to hold *)
 Definition has_block_ref (d : device) : bool :=
@@ -217,12 +298,13 @@ Definition has_block_ref (d : device) : bool :=
    a definition with no failing obligation must compile; one with a failing obligation does not, and rustc's error
    code is the one recorded for that class) ---- *)
 Definition failing_obligations (driver : string) (d : device) : list string :=
-  ((if has_block_ref d then ["D9"] else []) ++
-   (if debug_refs_resolve d then [] else ["D7"]) ++
+  ((if debug_refs_resolve d then [] else ["D7"]) ++
    (if forallb enum_dup_free (enums_of d) then [] else ["D12"]) ++
    (if forallb enum_unsigned_ok (enums_of d) then [] else ["D16"]) ++
    (if forallb enum_signed_ok (enums_of d) then [] else ["D17"]) ++
    (if namespaces_ok driver d then [] else ["D20"]) ++
-   (if keyword_free driver d then [] else ["D21"]))%list.
+   (if keyword_free driver d then [] else ["D21"]) ++
+   (if address_literals_sign_ok driver d then [] else ["D22"]) ++
+   (if address_literals_range_ok driver d then [] else ["D22L"]))%list.
 
 Definition show_obligations (driver : string) (d : device) : string := String.concat "," (failing_obligations driver d).
